@@ -162,14 +162,16 @@ class Runner:
                 oids = oid_list(act[2])
                 call = Call("get_many", oids)
                 out = w.send("get_many", [rb.oid_str(o) for o in oids])
-            elif kind == "getnext":
-                call = Call("getnext", [OIDS[act[2]]])
-                it = fast.GetIter(rb.oid_str(OIDS[act[2]]))
-                out = w.send("getnext", it=it)
-            elif kind == "getbulk":
-                call = Call("getbulk", [OIDS[act[2]]], max_rep=act[3])
-                it = fast.GetIter(rb.oid_str(OIDS[act[2]]), act[3])
-                out = w.send("getbulk", it=it)
+            elif kind in ("getnext", "getbulk"):
+                call = Call("getnext", [OIDS[act[2]]]) if kind == "getnext" else Call("getbulk", [OIDS[act[2]]], max_rep=act[3])
+                mk = drivers.call(fast.GetIter, rb.oid_str(OIDS[act[2]])) if kind == "getnext" else drivers.call(fast.GetIter, rb.oid_str(OIDS[act[2]]), act[3])
+                if mk.kind != "ok":
+                    self.api_calls += 1
+                    self.bad("wire", "%s: the iterator refused the valid OID %s: %r" % (kind, rb.oid_str(OIDS[act[2]]), mk.brief()))
+                    s.last_req = None
+                    return
+                it = mk.value
+                out = w.send(kind, it=it)
             elif kind == "refresh":
                 call = Call("refresh", [])
                 out = w.send("refresh")
